@@ -38,7 +38,7 @@ const (
 )
 
 // decoys are created next to the target before the run (relative to the sandbox root).
-var sandboxDirs = []string{"target", "target-evil", "targetX", "outside", "outside/keep", "sub", "cwd", "tmp", "inputs"}
+var sandboxDirs = []string{"target", "target-evil", "targetX", "outside", "outside/keep", "outside/empty", "sub", "cwd", "tmp", "inputs"}
 var sandboxFiles = map[string]string{
 	"target-evil/keep.txt":  "decoy\n",
 	"targetX/keep.txt":      "decoy\n",
